@@ -741,14 +741,14 @@ def run_tree_case(case, ctx, tmp):
         n = tl.read(**env.src(kind), schema=sch, **dict(env.kw, **extra))
         return tl, n
 
-    oc = attempt(lambda: read_into(TL(taxon_namespace=env.anyns())))
+    oc = attempt(lambda: read_into(TL(taxon_namespace=env.newns())))
     trees = R.compare("TreeList", "TreeList().read(data)", oc, want, lambda v: list(v[0]._trees), prefix="read:")
     if trees is not None and oc[1][1] != len(want):
         R.viol("TreeList", "read:return-value", "read() returned %r for %d trees" % (oc[1][1], len(want)), "TreeList().read(data)")
     for kind in ("file", "path"):
-        same_as("TreeList.read", "TreeList().read(%s)" % kind, oc, attempt(lambda: read_into(TL(taxon_namespace=env.anyns()), kind)), lambda v: list(v[0]._trees))
+        same_as("TreeList.read", "TreeList().read(%s)" % kind, oc, attempt(lambda: read_into(TL(taxon_namespace=env.newns()), kind)), lambda v: list(v[0]._trees))
     ci, tj = len(sl) - 1, sl[-1][1] - sl[-1][0] - 1
-    oc = attempt(lambda: read_into(TL(taxon_namespace=env.anyns()), collection_offset=ci, tree_offset=tj))
+    oc = attempt(lambda: read_into(TL(taxon_namespace=env.newns()), collection_offset=ci, tree_offset=tj))
     R.compare("TreeList", "TreeList().read(data, collection_offset=%d, tree_offset=%d)" % (ci, tj), oc, want[-1:], lambda v: list(v[0]._trees), prefix="read:offsets:")
 
     # --- two sources through the iterator and two incremental reads into one list (own namespace)
@@ -823,11 +823,12 @@ def run_tree_case(case, ctx, tmp):
             tlx = first[1]
             n0 = len(tlx._trees)
             ids_first = [taxa_ids(t) for t in tlx._trees]
+            snaps_first = [tree_snap(t) for t in tlx._trees]
             oc = attempt(lambda: read_into(tlx, "file"))
             route = "TreeList.get(data) then .read(file) into the same list"
             more = R.compare("TreeList", route, oc, want, lambda v: list(v[0]._trees)[n0:], prefix="incremental:")
             if more is not None:
-                if [tree_snap(t) for t in tlx._trees[:n0]] != want:
+                if [tree_snap(t) for t in tlx._trees[:n0]] != snaps_first:
                     R.viol("TreeList", "incremental:earlier-trees-changed", "reading more trees into a list changed the trees already in it", route)
                 if [taxa_ids(t) for t in more] != ids_first and len(more) == n0 and ("TreeList", "shared-namespace:different-taxon-objects") not in R.reported:
                     R.viol("TreeList", "shared-namespace:different-taxon-objects",
